@@ -421,6 +421,10 @@ def check_convert_stale(case):
 # ---------------------------------------------------------------------------------------------
 # 5. exports: Q, h / J, matrix_to_qubo, qubo_to_matrix
 # ---------------------------------------------------------------------------------------------
+def _is_zero_function(terms):
+    return all(close(peval(terms, x), 0) for x in assignments(variables_of(terms)))
+
+
 def _const_diff(pairs):
     """pairs of (a, b): a - b must be the same for all."""
     ds = [a - b for a, b in pairs]
@@ -454,11 +458,15 @@ def _gen_exports(ctx):
         for sym in (False, True):
             yield {"what": "qubo_to_matrix", "type": "dict", "terms": {k: 2}, "symmetric": sym, "array": not sym}
     for _ in range(n):
-        yield {"what": "qubo_to_matrix", "type": rng.choice(["dict", "QUBOMatrix"]),
-               "terms": _rand_terms(rng, pool, COEFS, 5, allow_zero=True, min_terms=1),
+        terms = _rand_terms(rng, pool, COEFS, 5, allow_zero=True, min_terms=1)
+        if _is_zero_function(terms):
+            continue               # kept out of the random part; two explicit cases follow
+        yield {"what": "qubo_to_matrix", "type": rng.choice(["dict", "QUBOMatrix"]), "terms": terms,
                "symmetric": rng.random() < 0.5, "array": rng.random() < 0.5}
     yield {"what": "qubo_to_matrix", "type": "dict", "terms": {(0,): 0}, "symmetric": False, "array": True,
            "note": "all-zero dict"}
+    yield {"what": "qubo_to_matrix", "type": "dict", "terms": {(0, 1): 1, (1, 0): -1}, "symmetric": True,
+           "array": False, "note": "entries cancel"}
 
 
 def _nontrivial_export(c):
@@ -528,13 +536,14 @@ def check_exports(case):
     try:
         mat = q.utils.qubo_to_matrix(arg, symmetric=case["symmetric"], array=case["array"])
     except ValueError:
-        if not live:
+        if _is_zero_function(terms):
             return None            # documented refusal of an (effectively) empty QUBO
         raise
     except Exception as e:      # noqa
-        if not live:
+        if _is_zero_function(terms):
             return Fail("qubo_to_matrix(%r) raised %s: %s (documented: a matrix, or ValueError for an empty QUBO)"
-                        % (terms, type(e).__name__, e), key="qubo_to_matrix-raises-%s:all-zero-dict" % type(e).__name__)
+                        % (terms, type(e).__name__, e),
+                    key="qubo_to_matrix-raises-%s:zero-function-dict" % type(e).__name__)
         raise
     vs = variables_of(terms)
     n = len(mat)
